@@ -86,6 +86,12 @@ func runC02(env *Env) {
 	}
 	r := env.Rng
 	emit := func(c string) { env.Emit("C02 "+c, runHist(strings.Fields(c))) }
+	// other exporting processes of the same program keep sending during every session (noise.go)
+	stopNoise := startNoise(2)
+	defer func() {
+		stopNoise()
+		env.Count(fmt.Sprintf("noise/other-exporters-sends>=%d", (noiseSends/1000)*1000))
+	}()
 	// every supported type alone, plain and enterprise-specific, with the registry's length
 	for _, dt := range genTypes {
 		for _, ent := range []uint32{0, 29305, 56506, 4294967295} {
